@@ -93,7 +93,11 @@ def Call.ainv (pr : Proc) (hs : HS) (p : Pid) : Call → Prop
     | .kDt => s.failing.isSome = true ∧ Clear hs p s.h.addr none
     | .kStat | .kRmid | .kUnlink | .kSem _ => s.failing.isSome = true
     | _ => s.h.addr = .null
-  | .shmFree s => s.pc = .kDt → Clear hs p s.h.addr none
+  | .shmFree s =>
+    match s.pc with
+    | .kDt => Clear hs p s.h.addr none
+    | .kStat | .kRmid | .kUnlink | .kSem _ => True
+    | _ => False
   | .lockOp hid m _ => attached pr m ∧ Clear hs p m.addr (some hid)
   | _ => True
 
@@ -116,7 +120,10 @@ theorem ainv_mono (pr : Proc) (hs hs' : HS) (p : Pid) (c : Call)
   | shmNew hid s =>
     simp only [Call.ainv] at hc ⊢
     split <;> simp_all <;> first | exact ⟨hc.1, clear_mono hs hs' p _ _ hsub hc.2⟩ | exact clear_mono hs hs' p _ _ hsub hc.2 | exact clear_mono hs hs' p _ _ hsub hc
-  | shmFree s => intro hp; exact clear_mono hs hs' p _ _ hsub (hc hp)
+  | shmFree s =>
+    simp only [Call.ainv] at hc ⊢
+    split <;> simp_all
+    exact clear_mono hs hs' p _ _ hsub hc
   | lockOp hid m s => exact ⟨hc.1, clear_mono hs hs' p _ _ hsub hc.2⟩
   | _ => trivial
 
@@ -271,5 +278,172 @@ theorem attached_sysStep (p q : Pid) (intr : Bool) (c : Sys) (os : OS) (nm : Nat
         exact ha
   · rw [sysStep_procs_other q p intr c os nm hq]
     exact ha
+
+/-! ## per action -/
+
+theorem attinv_kill (g : G) (q : Pid) (hi : AttInv g) : AttInv (g.kill q) := by
+  have hsub : ∀ h p m, (g.kill q).hs h = some (p, .shm m) → g.hs h = some (p, .shm m) ∧ p ≠ q := by
+    intro h p m hm
+    simp only [G.kill] at hm
+    split at hm
+    · rename_i p' x hx
+      split at hm
+      · cases hm
+      · rename_i hne
+        simp only [Option.some.injEq, Prod.mk.injEq] at hm
+        obtain ⟨rfl, rfl⟩ := hm
+        exact ⟨hx, hne⟩
+    · cases hm
+  have hprocs : ∀ p, p ≠ q → (g.kill q).os.procs p = g.os.procs p := by
+    intro p hp; simp [G.kill, OS.kill, hp]
+  refine ⟨hi.inj, ?_, ?_, ?_, ?_⟩
+  · intro p att hatt
+    by_cases hp : p = q
+    · subst hp; simp [G.kill, OS.kill] at hatt
+    · rw [hprocs p hp] at hatt ⊢; exact hi.fresh p att hatt
+  · intro h p m hm
+    obtain ⟨h0, hp⟩ := hsub h p m hm
+    rw [hprocs p hp]; exact hi.hs h p m h0
+  · intro h1 h2 p m1 m2 e1 e2 ea
+    exact hi.distinct h1 h2 p m1 m2 (hsub h1 p m1 e1).1 (hsub h2 p m2 e2).1 ea
+  · intro t c hc
+    simp only [G.kill] at hc
+    split at hc
+    · cases hc
+    · rename_i hne
+      have hp : (g.kill q).pidOf t ≠ q := hne
+      have hpid : (g.kill q).pidOf t = g.pidOf t := rfl
+      rw [hprocs _ hp, hpid]
+      refine ainv_mono _ g.hs _ _ c ?_ (hi.calls t c hc)
+      intro h m hm
+      exact ⟨m, (hsub h _ m hm).1, rfl⟩
+
+/-- a step that changes no attachment list and does not store a segment struct -/
+theorem attinv_step_plain (g : G) (t : Tid) (intr : Bool) (c : Call) (hi : AttInv g) (hc : g.calls t = some c)
+    (hproc : (sysStep (g.pidOf t) intr c.next g.os c.name).1.procs = g.os.procs)
+    (hout : match c.after (sysStep (g.pidOf t) intr c.next g.os c.name).2 with
+            | .cont c' => c'.ainv (g.os.procs (g.pidOf t)) g.hs (g.pidOf t)
+            | .done (_, some (_, some (.shm _))) => False
+            | _ => True) : AttInv (g.step t intr) := by
+  have hos := step_os g t intr c hc
+  simp only [G.step, hc] at hos ⊢
+  cases hr : c.after (sysStep (g.pidOf t) intr c.next g.os c.name).2 with
+  | cont c' =>
+    rw [hr] at hout
+    simp only [hr] at hos ⊢
+    refine attinv_of_sub g _ hi (by rw [hos]; exact hproc) rfl (fun h p m hm => ⟨m, hm, rfl, rfl⟩) ?_
+    intro t' c'' h'
+    simp only [G.setCall] at h'
+    split at h'
+    · rename_i e
+      simp only [Option.some.injEq] at h'
+      subst h'; subst e
+      exact Or.inr hout
+    · exact Or.inl h'
+  | done y =>
+    obtain ⟨ret, nh⟩ := y
+    rw [hr] at hout
+    simp only [hr] at hos ⊢
+    have hcalls : ∀ (g' : G), g'.calls = (fun t'' => if t'' = t then none else g.calls t'') →
+        ∀ t' c'', g'.calls t' = some c'' → g.calls t' = some c'' ∨ c''.ainv (g.os.procs (g.pidOf t')) g'.hs (g.pidOf t') := by
+      intro g' hg' t' c'' h'
+      rw [hg'] at h'
+      simp only at h'
+      split at h'
+      · cases h'
+      · exact Or.inl h'
+    cases nh with
+    | none =>
+      exact attinv_of_sub g _ hi (by rw [hos]; exact hproc) rfl (fun h p m hm => ⟨m, hm, rfl, rfl⟩) (hcalls _ rfl)
+    | some z =>
+      obtain ⟨hid, ox⟩ := z
+      cases ox with
+      | none =>
+        refine attinv_of_sub g _ hi (by rw [hos]; exact hproc) rfl ?_ (hcalls _ rfl)
+        intro h p m hm
+        simp only [G.setHandle, G.setRet, G.setCall] at hm
+        split at hm
+        · cases hm
+        · exact ⟨m, hm, rfl, rfl⟩
+      | some x =>
+        cases x with
+        | shm m => exact absurd hout id
+        | sem sh =>
+          refine attinv_of_sub g _ hi (by rw [hos]; exact hproc) rfl ?_ (hcalls _ rfl)
+          intro h p m hm
+          simp only [G.setHandle, G.setRet, G.setCall] at hm
+          split at hm
+          · simp at hm
+          · exact ⟨m, hm, rfl, rfl⟩
+
+/-- a step of the thread of process `p` that changes `p`'s attachment list but stores no struct -/
+theorem attinv_step_procs (g : G) (t : Tid) (intr : Bool) (c c' : Call) (hi : AttInv g) (hc : g.calls t = some c)
+    (hr : c.after (sysStep (g.pidOf t) intr c.next g.os c.name).2 = .cont c')
+    (hfresh : ∀ att, att ∈ ((sysStep (g.pidOf t) intr c.next g.os c.name).1.procs (g.pidOf t)).atts →
+      att.addr < ((sysStep (g.pidOf t) intr c.next g.os c.name).1.procs (g.pidOf t)).nextAddr)
+    (hkeep : ∀ h m, g.hs h = some (g.pidOf t, .shm m) → attached ((sysStep (g.pidOf t) intr c.next g.os c.name).1.procs (g.pidOf t)) m)
+    (hnew : c'.ainv ((sysStep (g.pidOf t) intr c.next g.os c.name).1.procs (g.pidOf t)) g.hs (g.pidOf t)) :
+    AttInv (g.step t intr) := by
+  have hos := step_os g t intr c hc
+  have hother : ∀ q, q ≠ g.pidOf t → (sysStep (g.pidOf t) intr c.next g.os c.name).1.procs q = g.os.procs q :=
+    fun q hq => sysStep_procs_other (g.pidOf t) q intr c.next g.os c.name hq
+  simp only [G.step, hc, hr] at hos ⊢
+  refine ⟨hi.inj, ?_, ?_, hi.distinct, ?_⟩
+  · intro p att hatt
+    simp only [G.setCall] at hatt ⊢
+    by_cases hp : p = g.pidOf t
+    · subst hp; exact hfresh att hatt
+    · rw [hother p hp] at hatt ⊢; exact hi.fresh p att hatt
+  · intro h p m hm
+    simp only [G.setCall] at hm ⊢
+    by_cases hp : p = g.pidOf t
+    · subst hp; exact hkeep h m hm
+    · rw [hother p hp]; exact hi.hs h p m hm
+  · intro t' c'' h'
+    simp only [G.setCall] at h' ⊢
+    split at h'
+    · rename_i e
+      simp only [Option.some.injEq] at h'
+      subst h'; subst e
+      exact hnew
+    · rename_i e
+      have hp : g.pidOf t' ≠ g.pidOf t := fun e' => e (hi.inj t' t e')
+      rw [hother _ hp]
+      exact hi.calls t' c'' h'
+
+/-- `shmdt (a)` of process `p`: the list shrinks, the next address stays -/
+theorem shmdt_atts (os : OS) (p : Pid) (intr : Bool) (nm : Nat) (b : Option Nat) :
+    (∀ att, att ∈ ((sysStep p intr (.shmdt b) os nm).1.procs p).atts → att ∈ (os.procs p).atts) ∧
+    ((sysStep p intr (.shmdt b) os nm).1.procs p).nextAddr = (os.procs p).nextAddr := by
+  simp only [sysStep, Sys.interruptible, Bool.and_false, Bool.false_eq_true, if_false, shmdtF]
+  split
+  · exact ⟨fun _ h => h, rfl⟩
+  · simp only [OS.setProc, OS.setSeg, if_true]
+    exact ⟨fun att h => (List.mem_filter.mp h).1, trivial⟩
+
+/-- the `shmdt` step of a clean-up whose address is clear of the structs at rest -/
+theorem attinv_step_shmdt (g : G) (t : Tid) (intr : Bool) (c c' : Call) (s : ShmSt) (hi : AttInv g) (hc : g.calls t = some c)
+    (hn : c.next = .shmdt (addrOpt s.h.addr)) (hclear : Clear g.hs (g.pidOf t) s.h.addr none)
+    (hr : c.after (sysStep (g.pidOf t) intr c.next g.os c.name).2 = .cont c')
+    (hnew : ∀ pr, c'.ainv pr g.hs (g.pidOf t)) : AttInv (g.step t intr) := by
+  refine attinv_step_procs g t intr c c' hi hc hr ?_ ?_ (hnew _)
+  · intro att hatt
+    rw [hn] at hatt ⊢
+    have := shmdt_atts g.os (g.pidOf t) intr c.name (addrOpt s.h.addr)
+    rw [this.2]
+    exact hi.fresh _ att (this.1 att hatt)
+  · intro h m hm
+    refine attached_sysStep (g.pidOf t) (g.pidOf t) intr c.next g.os c.name m (hi.hs h _ m hm) (hi.fresh _) ?_
+    intro _ a ha
+    rw [hn] at ha
+    simp only [Sys.shmdt.injEq] at ha
+    have hne := hclear h m hm (by simp)
+    intro e
+    apply hne
+    rw [e]
+    cases hsa : s.h.addr with
+    | null => rw [hsa] at ha; simp [addrOpt] at ha
+    | bad => rw [hsa] at ha; simp [addrOpt] at ha
+    | «at» a' => rw [hsa] at ha; simp only [addrOpt, Option.some.injEq] at ha; rw [ha]
 
 end PV.SysV
